@@ -11,8 +11,8 @@ git apply $DIR/patch.diff || { echo "RESULT $ID patch does not apply"; exit 2; }
 suite=$(cargo test --workspace --no-fail-fast --offline 2>&1 | grep -E "^test result" | awk '{p+=$4; f+=$6} END{print p"/"f}')
 name=$(basename $DEMO .rs)
 cp $DEMO tests/$name.rs
-with=$(cargo test --offline --test $name 2>&1 | grep -E "^test result" | tail -1)
+with=$(cargo test --offline ${FEATURES:-} --test $name 2>&1 | grep -E "^test result" | tail -1)
 git checkout -- . 
-without=$(cargo test --offline --test $name 2>&1 | grep -E "^test result" | tail -1)
+without=$(cargo test --offline ${FEATURES:-} --test $name 2>&1 | grep -E "^test result" | tail -1)
 rm -f tests/$name.rs
 echo "RESULT $ID suite_with_change(pass/fail)=$suite | demo_with_change: $with | demo_without: $without"
